@@ -356,10 +356,11 @@ pub fn run_recv(args: &[String]) -> i32 {
             let slow = sc["slow"].as_bool().unwrap_or(false);
             let writer = tokio::spawn(async move {
                 if slow && stream.len() > 4 {
-                    tokio::time::sleep(Duration::from_millis(180)).await;
+                    // read timeout 1000 ms in these scenarios: 400 ms of slack for a loaded machine
+                    tokio::time::sleep(Duration::from_millis(600)).await;
                     let _ = wr.write_all(&stream[..4]).await;
                     let _ = wr.flush().await;
-                    tokio::time::sleep(Duration::from_millis(180)).await;
+                    tokio::time::sleep(Duration::from_millis(600)).await;
                     let _ = wr.write_all(&stream[4..]).await;
                     let _ = wr.flush().await;
                 } else if cut == 0 {
@@ -384,9 +385,9 @@ pub fn run_recv(args: &[String]) -> i32 {
                 let mut rh = if via_read_half { conn.take_read_half() } else { None };
                 for _ in 0..(n_frames + 2) {
                     let r = match rh.as_mut() {
-                        Some(h) => Connection::receive_message_from_read_half(h, Duration::from_millis(300)).await,
+                        Some(h) => Connection::receive_message_from_read_half(h, Duration::from_millis(if slow { 1000 } else { 300 })).await,
                         // (the outer limit is the harness' own patience, not a read timeout of the library)
-                        None => match tokio::time::timeout(Duration::from_millis(if slow { 1500 } else { 300 }), conn.receive_message()).await {
+                        None => match tokio::time::timeout(Duration::from_millis(if slow { 3000 } else { 300 }), conn.receive_message()).await {
                             Ok(r) => r,
                             Err(_) => {
                                 r2.lock().unwrap().push(json!({"k": "quiet"}));
